@@ -42,8 +42,8 @@ PROP = dict(
           'FOR, 9-byte exception at index > 240 for PFOR, all-special or '
           'none-special doubles); distinct by hash of (family, variant, '
           'array contents, float mode)'),
-    quick=dict(configs=['asan', 'rel'], cases=1500000, maxlen=200),
-    thorough=dict(configs=['asan', 'rel'], cases=10000000, maxlen=400,
+    quick=dict(configs=['asan', 'rel', 'native'], cases=1500000, maxlen=200),
+    thorough=dict(configs=['asan', 'rel', 'native'], cases=10000000, maxlen=400,
                   fuzz_s=120, setmax=1 << 23),
     case_timeout=60,
     required_classes=[
